@@ -1128,7 +1128,7 @@ func propC20(r *Run, w *World) {
 	c15Deterministic(r, w, "C20.R8")
 
 	// R9 tables are what their literals say
-	r.Rule("C20.R9", "the name/number tables are written only by their literals: every map update or delete on a package-level table of auparse, rule or aucoalesce (or on a map reached through one) is either the literal's own initialisation or one of the reviewed start-up writers (ppc64/ppc64le aliases of the ppc syscall table, the reverse tables of package rule, the normalisation index built from the YAML)", 4)
+	r.Rule("C20.R9", "the name/number tables are written only by their literals: every map update or delete on a package-level table of auparse, rule or aucoalesce (or on a map reached through one) is either the literal's own initialisation or one of the reviewed start-up writers (ppc64/ppc64le aliases of the ppc syscall table, the reverse tables of package rule, the normalisation index built from the YAML)", 2)
 	{
 		isTableGlobal := func(g *ssa.Global) bool {
 			if g.Pkg == nil {
